@@ -31,16 +31,25 @@
    tag text, cacheKeys, defaultCache, structRequiredCache keyed by type): `seen`
    is the history of tags used so far, `memo` remembers the first outcome of every
    vector, and VerdictIsHistoryIndependent demands that a vector's outcome never
-   changes with the history.                                                      *)
+   changes with the history.  The history includes what callers did with the
+   targets earlier calls handed to them: `held` are the targets still in a caller's
+   hands, Mutate is a caller writing into its own target in place, Look demands
+   that a held target holds what its holder left there (TargetsAreIsolated).
+
+   Widths: a number supplied for a numeric field and accepted is held exactly, so a
+   number outside the width of the kind (Fits) can only be rejected.  Keys: the
+   configuration sources match document keys case-insensitively (v.ksp is not read
+   by any clause), the keys of a map are data and held verbatim (MapKeysVerbatim). *)
 EXTENDS Integers, Sequences, FiniteSets, TLC
 
 VARIABLES
   seen,   \* set of field specs (= tag texts) the unmarshaller has been shown so far
   cur,    \* the vector evaluated by the last step (NoVec initially)
   res,    \* its observed outcome
-  memo    \* key |-> [v, o]: first outcome observed for each vector key
+  memo,   \* key |-> [v, o]: first outcome observed for each vector key
+  held    \* target id |-> the values of a target the caller still holds (see "targets")
 
-fvars == <<seen, cur, res, memo>>
+fvars == <<seen, cur, res, memo, held>>
 
 \* ------------------------------------------------------------------ values
 V(t, n, s) == [t |-> t, n |-> n, s |-> s]
@@ -51,20 +60,31 @@ VNumStr(n) == V("numstr", n, "")      \* a number spelled inside a string ("3")
 VStr(s)    == V("str", 0, s)          \* a word
 VBool(b)   == V("bool", b, "")        \* b in {0,1}
 VNil       == V("nil", 0, "")         \* result only: nil pointer
+VList(c, s) == V("list", c, s)        \* a list of c scalars, s = their texts joined by ","
 
 SeqSet(s) == {s[i] : i \in DOMAIN s}
 
 DocSources  == {"json", "yaml", "toml", "conf", "confyaml", "conftoml", "body"}
+ConfSources == {"conf", "confyaml", "conftoml"}   \* core/conf: keys are matched case-insensitively
 MapSources  == {"map"}
 StrSources  == {"form", "formpost", "path", "header"}
 FormSources == {"form", "formpost"}    \* httpx.GetFormValues drops empty values
 
-IntKinds     == {"int", "int64", "uint8"}
+IntKinds     == {"int", "int8", "int16", "int32", "int64", "uint", "uint8", "uint16", "uint32", "uint64"}
+UnsignedKinds == {"uint", "uint8", "uint16", "uint32", "uint64"}
 FloatKinds   == {"float32", "float64"}
 NumericKinds == IntKinds \cup FloatKinds
+ListKinds    == {"strs", "ints"}       \* []string, []int (no range / options / string option)
+
+\* the width of the integer kinds, in halves.  Kinds of 32 bits and more have no end the
+\* model can name (TLC integers and the integers of the JSON traces are 32 bits wide).
+HasMax(k) == k \in {"int8", "int16", "uint8", "uint16"}
+MaxH(k) == CASE k = "int8" -> 254 [] k = "int16" -> 65534 [] k = "uint8" -> 510 [] k = "uint16" -> 131070 [] OTHER -> 0
+HasMin(k) == k \in UnsignedKinds \cup {"int8", "int16"}
+MinH(k) == CASE k = "int8" -> 0 - 256 [] k = "int16" -> 0 - 65536 [] OTHER -> 0
 
 NoVec == [src |-> "none"]
-NoRes == [acc |-> FALSE, pan |-> FALSE, out |-> <<>>]
+NoRes == [acc |-> FALSE, pan |-> FALSE, out |-> <<>>, mk |-> <<>>]
 
 \* ------------------------------------------------------------------ supplied?
 \* "supplied" is unambiguous for a present non-null value and for a missing key.
@@ -107,8 +127,9 @@ ValInOptions(f, r) ==
 
 \* "correctly typed" for the source the value arrives through
 Fits(f, n) ==
-  /\ f.k \in IntKinds => n % 2 = 0
-  /\ f.k = "uint8" => n >= 0 /\ n <= 510
+  f.k \in IntKinds => /\ n % 2 = 0
+                      /\ HasMin(f.k) => n >= MinH(f.k)
+                      /\ HasMax(f.k) => n <= MaxH(f.k)
 WellTyped(src, f, x) ==
   CASE f.k \in NumericKinds ->
          /\ Fits(f, x.n)
@@ -116,28 +137,34 @@ WellTyped(src, f, x) ==
             ELSE IF f.fs THEN x.t = "numstr" ELSE x.t = "num"
     [] f.k = "string" -> x.t = "str"
     [] f.k = "bool"   -> x.t = "bool"
+    [] f.k \in ListKinds -> x.t = "list"      \* vectors carry lists of the element kind only
     [] OTHER -> FALSE
 
 \* ------------------------------------------------------------------ resulting values
 Zero(f) ==
   IF f.ptr THEN VNil
   ELSE IF f.k \in NumericKinds THEN VNum(0)
+  ELSE IF f.k \in ListKinds THEN VList(0, "")     \* nil and empty slices are both "the empty list"
   ELSE IF f.k = "string" THEN VStr("") ELSE VBool(0)
 ZeroVal(f) ==   \* the zero value itself (a pointer field may also point at it)
   IF f.k \in NumericKinds THEN VNum(0)
+  ELSE IF f.k \in ListKinds THEN VList(0, "")
   ELSE IF f.k = "string" THEN VStr("") ELSE VBool(0)
 Default(f) ==
   IF f.k \in NumericKinds THEN VNum(f.dn)
+  ELSE IF f.k \in ListKinds THEN VList(f.dn, f.ds)
   ELSE IF f.k = "string" THEN VStr(f.ds) ELSE VBool(f.dn)
 DefaultOrZero(f) == IF f.hd THEN Default(f) ELSE Zero(f)
 Expected(f, x) ==
   IF f.k \in NumericKinds THEN VNum(x.n)
+  ELSE IF f.k \in ListKinds THEN VList(x.n, x.s)
   ELSE IF f.k = "string" THEN VStr(x.s) ELSE VBool(x.n)
 
 \* ------------------------------------------------------------------ the clauses
-\* (a) a required, undefaulted field is missing
+\* (a) a required, undefaulted *scalar* field is missing (the statement does not say
+\* whether a required list may be left out: either verdict is allowed there)
 MissingRequired(v, i) ==
-  LET f == v.f[i] IN DefAbsentV(v.in[i]) /\ ~f.hd /\ DefRequired(v, f)
+  LET f == v.f[i] IN DefAbsentV(v.in[i]) /\ ~f.hd /\ DefRequired(v, f) /\ f.k \notin ListKinds
 
 \* (b) (c) on the *resulting* value of an accepted outcome
 RangeHolds(v, i, r) ==
@@ -153,7 +180,11 @@ ValueHolds(v, i, r) ==
   IF DefAbsentV(x) THEN r = DefaultOrZero(f)
   ELSE IF Ambiguous(v.src, x) THEN r \in {Zero(f), ZeroVal(f), DefaultOrZero(f)}
   ELSE IF WellTyped(v.src, f, x) THEN r = Expected(f, x)
-  ELSE TRUE   \* a wrongly typed value that was nevertheless taken: only (b),(c) bind
+  \* a number supplied for a numeric field that is taken is held *exactly*: a number the
+  \* kind cannot hold (too wide for 8/16 bits, negative for unsigned, fractional for an
+  \* integer kind) can therefore not be accepted - no wrap-around, no rounding
+  ELSE IF f.k \in NumericKinds /\ x.t \in {"num", "numstr"} THEN r = VNum(x.n)
+  ELSE TRUE   \* another wrongly typed value that was nevertheless taken: only (b),(c) bind
 
 \* (e) the input meets every declared constraint with correctly typed values
 FieldFine(v, i) ==
@@ -191,12 +222,19 @@ NothingRequiredMissing(v, o) == o.acc => \A i \in DOMAIN v.f : ~MissingRequired(
 AcceptedInRange(v, o)    == o.acc => \A i \in DOMAIN v.f : RangeHolds(v, i, o.out[i])
 AcceptedInOptions(v, o)  == o.acc => \A i \in DOMAIN v.f : OptionsHold(v, i, o.out[i])
 AcceptedHoldsValues(v, o) == o.acc => \A i \in DOMAIN v.f : ValueHolds(v, i, o.out[i])
+\* (d) for a map[string]Struct: the keys of a map are data supplied by the user, the target
+\* holds exactly those keys - however a key is spelled (v.mk may equal the name of a field
+\* of the element or of the map field itself, in any capitalisation)
+MapKeysVerbatim(v, o)    == (o.acc /\ v.wrap = "map") => (Len(o.mk) = 2 /\ SeqSet(o.mk) = {v.mk, "k2"})
 
 \* Chk prints which clause failed (TLC output ends up in the replay header)
 Chk(name, v, cond) == IF cond THEN TRUE ELSE Print(<<"C08 clause failed", name, v.src, v.in>>, FALSE)
 
 \* waiveCompleteness is TRUE only inside a known-finding deviation action (see
 \* FieldRulesTrace): every other clause is still demanded.
+\* v.ksp (spelling of the document keys: "lower" as in the tags, "cap" capitalised - legal
+\* for the configuration sources only, which match keys case-insensitively) is deliberately
+\* not read by any clause: the verdict does not depend on it.
 JudgeW(v, o, waiveCompleteness) ==
   /\ Chk("NoPanic", v, NoPanic(v, o))
   /\ Chk("AcceptsWhatItMust", v, waiveCompleteness \/ AcceptsWhatItMust(v, o))
@@ -205,30 +243,65 @@ JudgeW(v, o, waiveCompleteness) ==
   /\ Chk("AcceptedInRange", v, AcceptedInRange(v, o))
   /\ Chk("AcceptedInOptions", v, AcceptedInOptions(v, o))
   /\ Chk("AcceptedHoldsValues", v, AcceptedHoldsValues(v, o))
+  /\ Chk("MapKeysVerbatim", v, MapKeysVerbatim(v, o))
 Judge(v, o) == JudgeW(v, o, FALSE)
 
-\* the same vector always has the same outcome, whatever was unmarshalled before
-Norm(o) == IF o.acc THEN o ELSE [acc |-> FALSE, pan |-> o.pan, out |-> <<>>]
+\* the same vector always has the same outcome, whatever was unmarshalled before and
+\* whatever the callers did with the targets they were handed
+Norm(o) == IF o.acc THEN o ELSE [acc |-> FALSE, pan |-> o.pan, out |-> <<>>, mk |-> <<>>]
 VerdictIsHistoryIndependent(key, v, o) ==
   key \in DOMAIN memo => memo[key] = [v |-> v, o |-> Norm(o)]
 
 \* ------------------------------------------------------------------ the state machine
-FInit == seen = {} /\ cur = NoVec /\ res = NoRes /\ memo = <<>>
+FInit == seen = {} /\ cur = NoVec /\ res = NoRes /\ memo = <<>> /\ held = <<>>
 
 \* bookkeeping of one unmarshal call: vector v (identified by key) had outcome o
-Record(key, v, o) ==
+Record0(key, v, o) ==
   /\ cur' = v
   /\ res' = o
   /\ seen' = seen \cup SeqSet(v.f)
   /\ memo' = IF key \in DOMAIN memo THEN memo ELSE memo @@ (key :> [v |-> v, o |-> Norm(o)])
+Record(key, v, o) == Record0(key, v, o) /\ UNCHANGED held
+
+\* ---- targets.  An accepted call hands a filled target to its caller.  The target is the
+\* caller's: it may keep it (held[tg] = the values it holds), overwrite any part of it in
+\* place - the elements of a slice, the variable behind a pointer, the entries of a map -
+\* (Mutate), look at it again (Look) and forget it (Drop).  Clause (d) quantifies over
+\* every call: what one caller does with its target is invisible to every other target
+\*   - a later call still delivers exactly the supplied values / the declared defaults
+\*     (Judge and VerdictIsHistoryIndependent of the later Step), and
+\*   - a held target changes only by its holder's Mutate (TargetsAreIsolated),
+\* i.e. nothing reachable from a target is shared with the unmarshaller's caches
+\* (optionsCache, defaultCache) or with another target.
+TargetsAreIsolated(tg, out) == out = held[tg]
 
 \* one unmarshal call that the property allows (trace validation: a recorded call that
-\* is not such a step is a violation)
-StepW(key, v, o, waiveCompleteness) ==
+\* is not such a step is a violation); keep: the caller holds on to the target as tg
+StepW(key, v, o, tg, keep, waiveCompleteness) ==
   /\ JudgeW(v, o, waiveCompleteness)
   /\ Chk("VerdictIsHistoryIndependent", v, VerdictIsHistoryIndependent(key, v, o))
-  /\ Record(key, v, o)
-Step(key, v, o) == StepW(key, v, o, FALSE)
+  /\ Record0(key, v, o)
+  /\ held' = IF keep /\ o.acc /\ tg \notin DOMAIN held THEN held @@ (tg :> o.out) ELSE held
+Step(key, v, o, tg, keep) == StepW(key, v, o, tg, keep, FALSE)
+
+\* the holder of tg wrote into its target; `out` is what the target holds afterwards
+\* (the caller's free choice - nothing is demanded of it)
+Mutate(tg, out) ==
+  /\ tg \in DOMAIN held
+  /\ held' = [held EXCEPT ![tg] = out]
+  /\ UNCHANGED <<seen, cur, res, memo>>
+
+\* the holder of tg reads its target: it holds what the holder left there
+Look(tg, out) ==
+  /\ tg \in DOMAIN held
+  /\ IF TargetsAreIsolated(tg, out) THEN TRUE
+     ELSE Print(<<"C08 clause failed", "TargetsAreIsolated", tg, held[tg], out>>, FALSE)
+  /\ UNCHANGED fvars
+
+Drop(tg) ==
+  /\ tg \in DOMAIN held
+  /\ held' = [t \in DOMAIN held \ {tg} |-> held[t]]
+  /\ UNCHANGED <<seen, cur, res, memo>>
 
 \* state invariants (used by the design-level model checking, where states are small and
 \* the next-state relation is the unguarded Record of some unmarshaller's outcome)
@@ -237,7 +310,7 @@ InvCompleteness   == cur # NoVec => AcceptsWhatItMust(cur, res)
 InvSoundness      == cur # NoVec => /\ NothingRequiredMissing(cur, res)
                                     /\ AcceptedInRange(cur, res)
                                     /\ AcceptedInOptions(cur, res)
-InvValues         == cur # NoVec => AcceptedHoldsValues(cur, res)
+InvValues         == cur # NoVec => AcceptedHoldsValues(cur, res) /\ MapKeysVerbatim(cur, res)
 InvHistoryIndependent == cur # NoVec => memo[cur].o = Norm(res)   \* design level: key = vector
 InvClassesDisjoint == cur # NoVec => ~(MustAccept(cur) /\ MustReject(cur))
 =============================================================================
